@@ -100,9 +100,9 @@ Lemma bad_cond_matcher_inv e :
   exists l r x a b va vb, e = EBinary OLAnd l r /\ unparen l = EBinary OLt x a /\ unparen r = EBinary OGt x b /\
     sef_typed x = true /\ const_val a = Some va /\ const_val b = Some vb /\ cmp_val OLt va vb = Some true.
 Proof.
-  destruct e as [| | | |[] l r| | | | | |]; simpl; try discriminate.
-  destruct (unparen l) as [| | | |[] x a| | | | | |] eqn:Ul; try discriminate.
-  destruct (unparen r) as [| | | |[] x' b| | | | | |] eqn:Ur; try discriminate.
+  destruct e as [| | | |[] l r| | | | | | |]; simpl; try discriminate.
+  destruct (unparen l) as [| | | |[] x a| | | | | | |] eqn:Ul; try discriminate.
+  destruct (unparen r) as [| | | |[] x' b| | | | | | |] eqn:Ur; try discriminate.
   intros H. apply andb_true_iff in H as [H1 H2]. apply andb_true_iff in H1 as [H1 S]. apply expr_eqb_eq in H1. subst x'.
   unfold const_less in H2. destruct (const_val a) as [va|] eqn:Ca; [|discriminate].
   destruct (const_val b) as [vb|] eqn:Cb; [|discriminate].
@@ -120,12 +120,12 @@ Qed.
 Theorem sloppy_len_true e b : sloppy_len_claim e = Some b -> always b e.
 Proof.
   unfold sloppy_len_claim.
-  destruct e as [| | | |o l z| | | | | |]; try discriminate.
-  destruct l as [| | | | |f args| | | | |]; try (destruct o; discriminate).
+  destruct e as [| | | |o l z| | | | | | |]; try discriminate.
+  destruct l as [| | | | |f args| | | | | |]; try (destruct o; discriminate).
   destruct f as [|p]; try (destruct o; discriminate). destruct p; try (destruct o; discriminate).
   destruct args as [|x [|y r]]; try (destruct o; discriminate).
   destruct (is_zero_lit z) eqn:Z; [|destruct o; discriminate].
-  destruct z as [|k s t| | | | | | | | |]; try discriminate. destruct k; try discriminate. simpl in Z.
+  destruct z as [|k s t| | | | | | | | | |]; try discriminate. destruct k; try discriminate. simpl in Z.
   destruct (go_int_lit s) as [[| |]|] eqn:GZ; try discriminate.
   intros Hb en h v h' Hen E.
   assert (G : forall o', o' = o -> is_cmp o' = true ->
@@ -149,8 +149,8 @@ Proof. induction s; simpl; auto. Qed.
 
 Theorem off_by1_panics e : off_by1 e = true -> always_panics e.
 Proof.
-  unfold off_by1. destruct e as [| | | | | |x i| | | |]; try discriminate.
-  destruct i as [| | | | |f args| | | | |]; try discriminate. destruct f as [|p]; try discriminate.
+  unfold off_by1. destruct e as [| | | | | |x i| | | | |]; try discriminate.
+  destruct i as [| | | | |f args| | | | | |]; try discriminate. destruct f as [|p]; try discriminate.
   destruct p; try discriminate. destruct args as [|x' [|y r]]; try discriminate.
   intros H. apply andb_true_iff in H as [H T]. apply andb_true_iff in H as [E P]. apply expr_eqb_eq in E. subst x'.
   intros en h v h' Hen Ev.
